@@ -12,11 +12,12 @@ LEVEL = "other"   # until the theorems of this property are merged
 
 def gen(rng, tier):
     out = []
-    keep = 1 if tier == "thorough" else 2
+    keep = 1
     for m in (c01, c02, c03, c05, c06, c08, c17):
         k = 0
         for ln in m.gen(rng, "quick" if tier == "quick" else "thorough"):
-            if ln.split(" ", 1)[0] in OPS:
+            t = ln.split(" ", 3)
+            if t[0] in OPS and (int(t[1]), int(t[2])) in CONFIGS_SMALL:
                 k += 1
                 if k % keep == 0:
                     out.append(ln)
